@@ -168,7 +168,11 @@ CHECKS = [
   "text": "Part (a) only, restricted to guards and frames: _check_start, _start_impl, start, run_up_to, run_up_to_including, stop, "
           "step are verified to raise DSOLError exactly when the documented run-state / replication-state rule forbids the command, "
           "and a refused command changes NO field of any object (strict frame obligation per field, so nobody is notified either); "
-          "accepted commands reach the documented state.",
+          "accepted commands reach the documented state. end_replication (base and DEVS): replication state ENDING, clock moved to "
+          "the replication end if it was earlier and never backwards, pending events discarded, and the run thread woken exactly once "
+          "(ghost wake-up counter on the worker object, so that it can report ENDED and END_REPLICATION). BOUNDED stand-in for the "
+          "rest of the statement (notification-stream grammar, ENDED after the end, refusals after the end, run thread gone, "
+          "cleanup / re-initialise): native lifecycle sweep over random command sequences at quiescence.",
   "design_ref": "DESIGN.md section 6 C04",
   "category": "proof",
   "note": "NOT covered: the well-formedness of the notification stream (start/stop alternation, warm-up once, end once and last), "
